@@ -47,6 +47,16 @@ def resolve_forward_type(t):
     return t, False
 
 
+def _foreign_forward_value(ref: ForwardRef, global_vars) -> bool:
+    name = getattr(ref, '__forward_arg__', None)
+    if not global_vars or not isinstance(name, str) or not name.isidentifier() or name in global_vars:
+        return False
+    module = global_vars.get('__name__')
+    value_module = getattr(ref.__forward_value__, '__module__', None)
+    return bool(module and value_module and isinstance(ref.__forward_value__, type)
+                and value_module != module and value_module not in ('builtins', 'typing'))
+
+
 def register_forward_ref(
     annotation,
     constraints: dict = None,
@@ -60,7 +70,12 @@ def register_forward_ref(
     if not isinstance(annotation, ForwardRef):
         return
     evaluated = None
-    if annotation.__forward_evaluated__:
+    if annotation.__forward_evaluated__ and _foreign_forward_value(annotation, global_vars):
+        # typing keeps ONE ForwardRef per spelling (the argument of List['Thing']) for the whole process: its cached
+        # value may be the class another module bound to that name. This module has not defined the name yet,
+        # so the reference is pending here (and is evaluated in this module's namespace at the first parse)
+        pass
+    elif annotation.__forward_evaluated__:
         evaluated = True
         annotation = annotation.__forward_value__
     elif global_vars:
